@@ -393,6 +393,8 @@ func classify(err error) string {
 		return "style"
 	case strings.Contains(m, "requires 'paths'"):
 		return "nopaths"
+	case strings.Contains(m, "info.summary not supported"):
+		return "strict"
 	case strings.Contains(m, "spec validation failed"):
 		return "validation"
 	}
@@ -1478,6 +1480,12 @@ func emit(id string, c *caseT, st *hx.Stats) string {
 	} else {
 		l.Nat(0)
 	}
+	// WithInfoSummary: in the Lean document (dropped for 3.0, an error under StrictDownlevel, kept for 3.1)
+	if c.Cfg != nil {
+		str(l, c.Cfg.Summary)
+	} else {
+		str(l, "")
+	}
 	in := l.String()
 	l.Sep()
 	if pending != nil {
@@ -1995,7 +2003,7 @@ func genCase(r *hx.Rand) caseT {
 	for i := 0; i < n; i++ {
 		c.Ops = append(c.Ops, genOp(r))
 	}
-	if r.Chance(1, 8) {
+	if r.Chance(1, 5) {
 		c.Cfg = genCfg(r, c.V31)
 	}
 	if r.Chance(1, 12) && len(c.Ops) > 0 {
@@ -2094,6 +2102,9 @@ func fixedCases() []caseT {
 				{Ctor: "POST", Path: "/up/:id", Summary: "s", Req: &TX{K: "req", I: 0}, Cons: []string{"application/json, application/xml"}, Resps: ok(ct("pa.Item"))},
 				{Ctor: "PUT", Path: "/up/:id", Summary: "s", Req: &TX{K: "req", I: 0}, Cons: []string{"multipart/form-data; boundary", ""}, Prod: []string{"application/xml", "application/json"}, Resps: ok(ct("pa.Item"))},
 				{Ctor: "PATCH", Path: "/up/:id", Summary: "s", Req: &TX{K: "req", I: 0}, Cons: []string{""}}}},
+			// info.summary (a 3.1 member): kept for 3.1, dropped for 3.0, an error for 3.0 under StrictDownlevel
+			caseT{V31: v31, Strict: true, Cfg: &cfgT{Summary: "Users and orders"}, Ops: []opT{{Ctor: "GET", Path: "/sm", Summary: "s", Resps: ok(ct("pa.Item"))}}},
+			caseT{V31: v31, Cfg: &cfgT{Summary: "Users and orders", Desc: "An API"}, Ops: []opT{{Ctor: "GET", Path: "/sm", Summary: "s", Resps: ok(ct("pa.Item"))}}},
 			// well-known types with a fixed JSON form, plain — then, in between, the same types behind
 			// pointers and with constraints — then plain again (same process)
 			caseT{V31: v31, Ops: []opT{{Ctor: "GET", Path: "/wk", Resps: ok(ct("pa.WellKnown"))}},
